@@ -228,6 +228,21 @@ class LinkPair:
         self.settle()
         return dict(k="rxturn", n=n, rets=rets, air=self._air_since(n0))
 
+    def ctx(self, other=False):
+        """the transmitting object leaves its `with` block and enters it again (other: a second RF24 object sharing the
+        radio uses it in between) - what a failed call left behind must still be dealt with by the next call"""
+        n0 = len(self.air.log)
+        exc = "none"
+        try:
+            self.tx.__exit__(None, None, None)
+            self.s.advance(200_000)
+            self.tx.__enter__()
+            self.s.advance(300_000)
+        except Exception as e:  # noqa
+            exc = type(e).__name__
+        self.settle()
+        return dict(k="ctx", exc=exc, air=self._air_since(n0))
+
     def txread(self):
         """the transmitting side reads whatever its RX FIFO holds (ACK payloads left there by send_only calls)"""
         n0 = len(self.air.log)
